@@ -865,6 +865,14 @@ func (r *e1Run) mint(st e1Step, sid uint64, data string) string {
 	} else {
 		cmd = "login"
 	}
+	switch st.Captcha {
+	case "old", "old5", "ancient":
+		r.res.Add("captcha_tokens_expired_presented", 1)
+	case "ok", "edge":
+		r.res.Add("captcha_tokens_valid_presented", 1)
+	default:
+		r.res.Add("captcha_tokens_forged_presented", 1)
+	}
 	return mintCaptcha(st.Captcha, auth, la, cmd, arg)
 }
 
